@@ -41,7 +41,11 @@ CONFIGS = [
     # (the default implementation of Eq cannot be used), whatever the field type - never an Eq that asserts something `==` does not compare
     ("#[partial_ord(key = key_ne(&$))]", "refuse"), ("#[partial_ord(key = key_eq(&$))]", "refuse"), ("#[partial_ord(by = by_po)]", "refuse"),
     ("#[partial_eq(key = key_f(&$))]", "refuse"), ("#[partial_eq(by = by_b)]", "refuse"),
-    ("#[partial_ord(key = key_ne(&$))] #[eq(key = key_eq(&$))]", "eq"), ("#[partial_eq(key = key_ne(&$))] #[eq(key = key_eq(&$))]", "eq"), ("#[partial_ord(by = by_po)] #[eq(by = by_b)]", None), ("#[ord(key = _eq(&$))]", "ne"), ("#[eq(key = _f(&$))]", "eq"), ("#[ord(key = key_ne(&$))] #[partial_eq(key = key_eq(&$))]", "ne"),
+    ("#[partial_ord(key = key_ne(&$))] #[eq(key = key_eq(&$))]", "eq"), ("#[partial_eq(key = key_ne(&$))] #[eq(key = key_eq(&$))]", "ne"), ("#[partial_ord(by = by_po)] #[eq(by = by_b)]", None), ("#[ord(key = _eq(&$))]", "ne"), ("#[eq(key = _f(&$))]", "eq"), ("#[ord(key = key_ne(&$))] #[partial_eq(key = key_eq(&$))]", "eq"),
+    # what `==` compares decides (PartialEq takes partial_eq > eq > partial_ord > ord): a float-like key there is refused whatever eq / ord say
+    ("#[eq(key = key_eq(&$))] #[partial_eq(key = key_ne(&$))]", "ne"), ("#[ord(key = key_eq(&$))] #[partial_eq(key = key_f(&$))]", "ne"), ("#[ord(by = by_o)] #[partial_ord(key = key_ne(&$))]", "ne"),
+    ("#[eq(by = by_b)] #[partial_eq(key = key_ne(&$))]", "ne"), ("#[ord(key = key_eq(&$))] #[partial_ord(key = key_ne(&$))]", "ne"), ("#[eq(key = key_ne(&$))] #[partial_eq(by = by_b)]", None),
+    ("#[eq(key = key_ne(&$))] #[partial_eq(key = key_eq(&$))]", "eq"), ("#[ord(key = key_ne(&$))] #[partial_ord(key = key_eq(&$))]", "eq"), ("#[ord(key = key_ne(&$))] #[partial_ord(by = by_po)]", None),
 ]
 FIELD_TYPES = [("u8", True), ("NE", False), ("f32", False), ("Option<NE>", False), ("Vec<u8>", True), ("T", None)]
 
@@ -53,7 +57,7 @@ EXTRA = [  # (derive list, item, must compile)
     ("PartialEq, Eq, Hash", "pub struct X { pub id: u32, #[eq(ignore)] pub w: NE }", True),
     ("PartialEq, Eq, Hash", "pub struct X { pub id: u32, #[hash(key = key_eq(&$))] #[eq(key = key_ne(&$))] pub w: u8 }", False),
     ("PartialEq, Eq, Hash", "pub struct X { pub id: u32, #[hash(by = hby)] #[eq(key = key_eq(&$))] pub w: NE }", True),
-    # recorded finding: == goes through the more specific partial_ord key (a float), the Eq assertion only looks at the ord key
+    # repaired (76c845a, recorded as a finding before): == goes through the more specific partial_ord key (a float), the Eq assertion used to look at the ord key only
     ("Ord, PartialOrd, Eq, PartialEq", "pub struct X(#[ord(key = $.to_bits())] #[partial_ord(key = $)] pub f64);", False),
 ]
 
@@ -64,7 +68,7 @@ def programs(ctx):
     i = 0
     combos = list(itertools.product(CONFIGS, FIELD_TYPES, ("struct", "tuple", "enum", "enum_tuple"), (False, True)))
     if ctx.quick:
-        combos = [c for c in combos if "_eq(" in c[0][0] or "_f(" in c[0][0]][:24] + [c for c in combos if c[0][1] == "refuse" and c[1][0] in ("u8", "T") and c[2] in ("struct", "enum_tuple")] + rng.sample(combos, 130) + [c for c in combos if c[2] == "enum_tuple" and c[1][0] in ("u8", "NE") and not c[3]]
+        combos = [c for c in combos if "_eq(" in c[0][0] or "_f(" in c[0][0]][:24] + [c for c in combos if (c[0][1] == "refuse" or ("partial_" in c[0][0] and ("eq(" in c[0][0].replace("partial_eq(", "") or "ord(" in c[0][0].replace("partial_ord(", "")))) and c[1][0] in ("u8", "T") and c[2] in ("struct", "enum_tuple")] + rng.sample(combos, 130) + [c for c in combos if c[2] == "enum_tuple" and c[1][0] in ("u8", "NE") and not c[3]]
     for (attr, comp), (fty, fty_eq), shape, generic_inst_ne in combos:
         generic = fty == "T"
         if generic:
